@@ -53,6 +53,25 @@
 (*          (which form was decided, how many inputs lie on the boundary   *)
 (*          of the exact ball): coverage, not a rejection.                 *)
 (*                                                                         *)
+(* HISTORIES.  The property speaks of the geometry as it is when it is     *)
+(* asked: a record made in the middle of a history on one object (volumes  *)
+(* read in some order, the object moved by apply_translation / apply_scale *)
+(* / apply_transform with exact integer maps, volumes read again) carries  *)
+(* in c.pts the vertices the object has AT THAT MOMENT (read back from the *)
+(* object after the volumes, mapped back by the current exact offset and   *)
+(* scale: off in -20000..20000, sc a power of two <= 4096) and is judged   *)
+(* exactly like a record of a fresh object; c.hist names the steps so far. *)
+(*                                                                         *)
+(* WIDE inputs (kind "hullw"): tight lattice clusters far apart.  A point  *)
+(* is <<cl, lo>>, its coordinates are cl[a] * L + lo[a] with L = 10^5,     *)
+(* cl[a] in 0..2, lo[a] in 0..3.  Orientation determinants are evaluated   *)
+(* as polynomials in L (integer coefficients, degree <= 3, every           *)
+(* coefficient below 10^4 in absolute value), whose sign at L = 10^5 is    *)
+(* the sign of the highest non-zero coefficient: exact, and every number   *)
+(* stays small.  Hull clauses as above except the separate extreme-point   *)
+(* clause (for a closed convex surface through input points that contains  *)
+(* every input it is implied).                                             *)
+(*                                                                         *)
 (* FIXED-POINT part (the weakest checks; values are round(x * 10^4)):      *)
 (*  obb     W (rotation rows) and t of the matrix taking input coordinates *)
 (*          to the box frame, ext = reported extents.  Rigid:              *)
@@ -164,6 +183,48 @@ HullClause(P, o) ==
     ELSE IF \E f \in 1..Len(F) : pos(f) # {} THEN "hull_not_convex_input_outside_face_plane"
     ELSE IF \E k \in 1..Len(P) : k \notin onhull /\ (\A j \in onhull : P[j] # P[k]) /\ Extreme(P, k)
          THEN "hull_misses_an_extreme_input_point"
+    ELSE IF ~o.wt THEN "hull_reports_is_watertight_false"
+    ELSE IF ~o.wc THEN "hull_reports_is_winding_consistent_false"
+    ELSE IF ~o.volpos THEN "hull_reports_volume_not_positive"
+    ELSE IF ~o.cvx THEN "hull_reports_is_convex_false"
+    ELSE "ok"
+
+\* ------------------------------------------------------------ wide inputs: polynomials in L
+\* a polynomial a0 + a1 L + a2 L^2 + a3 L^3 is <<a0, a1, a2, a3>>
+PAdd(p, q) == <<p[1] + q[1], p[2] + q[2], p[3] + q[3], p[4] + q[4]>>
+PSub(p, q) == <<p[1] - q[1], p[2] - q[2], p[3] - q[3], p[4] - q[4]>>
+PMul(p, q) == <<p[1] * q[1], p[1] * q[2] + p[2] * q[1], p[1] * q[3] + p[2] * q[2] + p[3] * q[1],
+                p[1] * q[4] + p[2] * q[3] + p[3] * q[2] + p[4] * q[1]>>       \* degree never exceeds 3 here
+Sgn(x) == IF x > 0 THEN 1 ELSE IF x < 0 THEN -1 ELSE 0
+\* sign at L = 10^5: the highest non-zero coefficient decides because every |coefficient| < L - 1
+PSign(p) == IF p[4] # 0 THEN Sgn(p[4]) ELSE IF p[3] # 0 THEN Sgn(p[3]) ELSE IF p[2] # 0 THEN Sgn(p[2]) ELSE Sgn(p[1])
+PSmall(p) == \A k \in 1..4 : Abs(p[k]) < 10000
+\* difference vector of two wide points <<cl, lo>>: three linear polynomials
+WSub(p, q) == [a \in 1..3 |-> <<p[2][a] - q[2][a], p[1][a] - q[1][a], 0, 0>>]
+WDet3(u, v, w) == PAdd(PSub(PMul(u[1], PSub(PMul(v[2], w[3]), PMul(v[3], w[2]))),
+                            PMul(u[2], PSub(PMul(v[1], w[3]), PMul(v[3], w[1])))),
+                       PMul(u[3], PSub(PMul(v[1], w[2]), PMul(v[2], w[1]))))
+WVol(a, b, c, d) == WDet3(WSub(b, a), WSub(c, a), WSub(d, a))
+WSide(a, b, c, d) == PSign(WVol(a, b, c, d))        \* as Vol above: > 0 iff d on the side the normal points to
+WSpans3(P) == \E a \in 1..Len(P) : \E b \in (a+1)..Len(P) : \E c \in (b+1)..Len(P) : \E d \in (c+1)..Len(P) :
+                  WSide(P[a], P[b], P[c], P[d]) # 0
+WideHullClause(P, o) ==
+    LET hv == o.hv  F == o.hf
+        nV == Len(hv)
+        V == [k \in 1..nV |-> IF hv[k] >= 0 /\ hv[k] < Len(P) THEN P[hv[k] + 1] ELSE P[1]]
+        E == Edges(F)
+        S == EdgesSorted(F)
+        side(f, k) == WSide(V[F[f][1] + 1], V[F[f][2] + 1], V[F[f][3] + 1], P[k])
+        pos(f) == {k \in 1..Len(P) : side(f, k) > 0}
+        neg(f) == {k \in 1..Len(P) : side(f, k) < 0}
+    IN
+    IF Len(F) = 0 \/ nV = 0 THEN "hull_is_empty"
+    ELSE IF \E k \in 1..nV : hv[k] < 0 \/ hv[k] >= Len(P) THEN "hull_vertex_is_not_an_input_point"
+    ELSE IF \E f \in 1..Len(F) : \E j \in 1..3 : F[f][j] < 0 \/ F[f][j] >= nV THEN "hull_face_index_out_of_range"
+    ELSE IF ~Watertight(S) THEN "hull_not_watertight"
+    ELSE IF ~WindingConsistent(E, S) THEN "hull_winding_inconsistent"
+    ELSE IF \E f \in 1..Len(F) : pos(f) # {} /\ neg(f) = {} THEN "hull_face_wound_inward"
+    ELSE IF \E f \in 1..Len(F) : pos(f) # {} THEN "hull_not_convex_input_outside_face_plane"
     ELSE IF ~o.wt THEN "hull_reports_is_watertight_false"
     ELSE IF ~o.wc THEN "hull_reports_is_winding_consistent_false"
     ELSE IF ~o.volpos THEN "hull_reports_volume_not_positive"
@@ -337,8 +398,9 @@ Prefixed(obs, F(_)) == FirstBad([k \in 1..Len(obs) |-> LET x == F(obs[k]) IN
 
 \* ============================================================== validator
 Clause(c) ==
-    LET P == LiftAll(c.pts) IN
+    LET P == IF c.kind = "hullw" THEN c.pts ELSE LiftAll(c.pts) IN
     CASE c.kind = "hull" -> Prefixed(c.obs, LAMBDA o : HullClause(P, o))
+      [] c.kind = "hullw" -> Prefixed(c.obs, LAMBDA o : WideHullClause(P, o))
       [] c.kind = "aabb" -> Prefixed(c.obs, LAMBDA o : AabbClause(c.pts, c.dim, o))
       [] c.kind = "sphere" -> SphereClause(P, c.dim, c.obs)
       [] c.kind = "obb" -> Prefixed(c.obs, LAMBDA o : ObbObs(P, o))
@@ -352,15 +414,20 @@ Report == LET c == Cases[i]  cl == IF c.exc # "" THEN "raised_" \o c.exc ELSE Cl
 
 \* the inputs satisfy the hypothesis of the property (a failure is a defect of the harness)
 InputSane ==
-    LET c == Cases[i]  P == LiftAll(c.pts) IN
-    /\ c.dim \in {2, 3} /\ Len(c.pts) >= c.dim + 1 /\ Len(c.pts) <= 16
-    /\ \A k \in 1..Len(c.pts) : Len(c.pts[k]) = c.dim /\ \A a \in 1..c.dim : c.pts[k][a] \in 0..3
-    /\ IF c.dim = 3 THEN Spans3(P) ELSE Spans2(P)
-    /\ c.sc \in {1, 1024} /\ \A a \in 1..c.dim : c.off[a] \in {-10000, 0, 10000}
+    LET c == Cases[i] IN
+    /\ c.sc \in {1, 2, 4, 1024, 2048, 4096} /\ \A a \in 1..c.dim : c.off[a] \in -20000..20000
+    /\ IF c.kind = "hullw" THEN
+           /\ c.dim = 3 /\ c.L = 100000 /\ Len(c.pts) >= 4 /\ Len(c.pts) <= 32
+           /\ \A k \in 1..Len(c.pts) : \A a \in 1..3 : c.pts[k][1][a] \in 0..2 /\ c.pts[k][2][a] \in 0..3
+           /\ WSpans3(c.pts)
+       ELSE LET P == LiftAll(c.pts) IN
+           /\ c.dim \in {2, 3} /\ Len(c.pts) >= c.dim + 1 /\ Len(c.pts) <= 16
+           /\ \A k \in 1..Len(c.pts) : Len(c.pts[k]) = c.dim /\ \A a \in 1..c.dim : c.pts[k][a] \in 0..3
+           /\ IF c.dim = 3 THEN Spans3(P) ELSE Spans2(P)
 
 \* laws of the reference itself on the recorded inputs flagged c.sane (never a finding about trimesh)
 RefSane ==
-    LET c == Cases[i]  P == LiftAll(c.pts) IN
+    LET c == Cases[i]  P == IF c.kind = "hullw" THEN <<>> ELSE LiftAll(c.pts) IN
     c.sane =>
       CASE c.kind = "hull" ->
              LET ext == {k \in Idx(P) : Extreme(P, k)} IN
@@ -371,5 +438,8 @@ RefSane ==
              /\ Cardinality(all) = 1                                     \* the minimal ball is unique
              /\ M \in all /\ Inside(P, M) /\ Cardinality(Boundary(P, M)) >= 2
              /\ M.cd > 0 /\ M.cd <= 2000
+        [] c.kind = "hullw" ->        \* the polynomial signs are decided by their leading coefficient
+             \A a \in 1..Len(c.pts) : \A b \in (a+1)..Len(c.pts) : \A d \in (b+1)..Len(c.pts) :
+                 PSmall(WVol(c.pts[1], c.pts[a], c.pts[b], c.pts[d]))
         [] OTHER -> TRUE
 =============================================================================
